@@ -13,7 +13,15 @@ CHECK = dict(
          "| OCI layout, each registry with reg.WithCache on/off and HEAD with/without digest header. Reference model subject -> "
          "set{(digest, artifactType, annotations)}; after EVERY step raw storage, the raw fallback tag, a fresh client's answer for all "
          "3 subjects and (generated) the client under test's answers are compared with it. Non-trivial = at some point >= 2 live "
-         "artifacts named one subject and >= 1 stored artifact was deleted, or a concurrent batch with >= 2 members ran; distinct by the whole case.",
+         "artifacts named one subject and >= 1 stored artifact was deleted, or a concurrent batch with >= 2 members ran; distinct by the whole case. "
+         "Dimensions added by the generator-domain audit: artifacts in a separate repository / layout listed with WithReferrerSource; the "
+         "multi-platform index asked with WithReferrerPlatform (linux/amd64 = subject 0, linux/arm64 = an image nobody names); subject "
+         "references as digest, tag, tag+digest and default tag; deletes by tag+digest reference and with WithManifest(m) taken from "
+         "ManifestGet; artifacts identified by sha512 digests, with a digest-only subject descriptor, without the mediaType field, with "
+         "empty / escaped annotations, pushed to a shared (moving) tag; calls made with a cancelled or expired context (put, delete, "
+         "list) or cancelled at the k-th request (list) followed by live calls; a client that starts cold (nothing asked before the first "
+         "step); batches whose members name different subjects; page size 3 and absolute Link URLs; cache entries expiring after 1 ms; "
+         "config.Host.ReqConcurrent 1/2.",
     jobs=[REPLAY,
           rapid("prop", "TestVerifProp", 20000, 320000, sq=16, st=16, shrinktime="15s"),
           rapid("conc", "TestVerifConc", 8000, 48000, sq=16, st=16, shrinktime="15s",
@@ -40,5 +48,6 @@ CHECK = dict(
     assumptions=["registries are fault free and answer as regmodel does (a registry with the referrers API acknowledges a subject with OCI-Subject)",
                  "an artifact's type is artifactType, else (image manifest) config.mediaType, else none (index); its annotations are the manifest's top-level annotations (distribution spec, referrers API)",
                  "filter semantics as documented on descriptor.MatchOpt (all listed annotations must match; an empty value only requires the key)",
-                 "the WithManifest(m) option is given the manifest that is being deleted"],
+                 "the WithManifest(m) option is given the manifest that is being deleted",
+                 "a call whose context has ended may fail (a registry call then has sent nothing, a list never changes storage); it must not change what later calls with a live context answer"],
 )
